@@ -406,7 +406,7 @@ func c05Budget(p *core.Prog, r *core.Report) {
 		ok := false
 		core.EachInstr(f, func(i ssa.Instruction) {
 			ret, isRet := i.(*ssa.Return)
-			if !isRet || len(ret.Results) != 2 || !loadsGlobal(ret.Results[1], "ErrTimeout") {
+			if !isRet || len(ret.Results) != 2 || !loadsGlobal(core.ReturnValues(ret)[1], "ErrTimeout") {
 				return
 			}
 			fs := factsAt(ret.Block())
